@@ -60,6 +60,12 @@ ASSUME LBigFact(20) = <<0, 7664, 81, 2902, 243>>
 ASSUME \A n \in {13, 20, 25, 30} : LBigAdd(LBigRankBySplit(PDecreasing(n)), <<1>>, 0) = LBigFact(n)
                                     /\ LBigRankBySplit(PIdentity(n)) = <<>>
 ASSUME \A x \in {<<>>, <<9999>>, <<9999, 9999>>, <<1, 2, 3>>} : LBigValue(LBigAdd(x, <<1>>, 0)) = LBigValue(x) + 1
+ASSUME \A M \in MAllMesh(1) : LBigIsNumeral(MBigRank(M)) /\ LBigValue(MBigRank(M)) = MRank(M)
+ASSUME \A p \in {<<1, 0, 2>>}, R \in {{}, {<<0, 0>>}, {<<3, 3>>}, {<<0, 0>>, <<3, 0>>, <<0, 2>>, <<2, 1>>, <<2, 3>>, <<1, 2>>, <<3, 3>>, <<3, 1>>, <<1, 1>>}, MCells(3)} :
+          LBigValue(MBigRank(MMesh(p, R))) = MRank(MMesh(p, R))
+ASSUME MBigRank(MMesh(<<1, 0, 2>>, {<<0, 0>>, <<3, 0>>, <<0, 2>>, <<2, 1>>, <<2, 3>>, <<1, 2>>, <<3, 3>>, <<3, 1>>, <<1, 1>>})) = <<7717, 4>>
+\* the fully shaded grid of a pattern of length 7 has rank 2^64 - 1 = 18446744073709551615
+ASSUME MBigRank(MMesh(PIdentity(7), MCells(7))) = <<1615, 955, 737, 6744, 1844>>
 
 \* ---- the sorted enumeration: strictly increasing, complete, index = rank -----------
 ASSUME \A n \in 0..5 : LET s == LSorted(T[n]) IN
